@@ -9,7 +9,10 @@ RULE = ("scripts of read outcomes over an alphabet of 38 REAL Go error values (b
         "net.Errors, io.* values, EBADF, closed-file texts, unknown errors) + frames whose processing succeeds or fails: "
         "every single step, pairs, ALL sequences up to a length over the 8-letter class alphabet (with a random "
         "representative per letter), the same x every cancellation position, random scripts up to length 40 (scripted, "
-        "asynchronous or no cancellation; drained or not), error bursts beyond the channel buffer; non-trivial = at "
+        "asynchronous or no cancellation; drained or not), error bursts beyond the channel buffer, runs of cap-1 / cap / "
+        "cap+1 / 2.5 cap unknown read errors with no frame between them (transients interleaved, consumer receiving) "
+        "followed by frames; the REAL afpacket.Source on lo of a private netns closed before / while receiving with the "
+        "context live, idle, under traffic, and the value it returns once closed played through the mock; non-trivial = at "
         "least one fault or processor error in the script; distinct by (script, cancellation, consumer)")
 
 CODES = {1: "frames handed to the processor differ from the model", 2: "errors on the channel differ from the model",
@@ -162,6 +165,9 @@ def spec_on_impl(o, alpha):
             continue
         ent = A[c - 128]
         allowed = ent["allowed"]
+        from_closed_source = o.get("closed_src_at", 0) == i and i > 0
+        if from_closed_source:
+            allowed = "c"     # the real afpacket.Source returns this value once it is closed
         if 2 * i in reported:
             handled = "u"
         elif is_last and cancel == i:
@@ -174,14 +180,41 @@ def spec_on_impl(o, alpha):
             how = {"u": "reported as an unknown error", "c": "treated as the end of the socket (reading stops)",
                    "t": "silently retried"}[handled]
             return ("class:%s:%s" % (edesc_text(ent["d"]), handled),
-                    "%s at position %d is %s, the property says: %s" % (
-                        edesc_text(ent["d"]), i, how, " or ".join(WORDS[a] for a in allowed)))
+                    "%s at position %d is %s, the property says: %s%s" % (
+                        edesc_text(ent["d"]), i, how, " or ".join(WORDS[a] for a in allowed),
+                        " (this is the value the real pkg/packet/afpacket.Source returns once it is closed)"
+                        if from_closed_source else ""))
     if cancel == -2:
         if reads == 0 or prefix[last] < 128:
             return ("ends", "the receiver ended without cancellation and without a closed or broken socket")
         if 2 * last in reported:
             return ("ends-after-unknown", "%s at position %d is reported as an unknown error and then reading stops "
                                           "(unknown failures must not end reading)" % (step_text(alpha, prefix[last]), last))
+    return None
+
+
+def source_spec(o):
+    """The REAL afpacket.Source on lo read by the real receiver. Returns None or (key, reason)."""
+    errs = "; ".join("%s x%d%s" % (e["name"] or repr(e["text"]), e["count"], " (after Close)" if e["after_close"] else "")
+                     for e in o["read_errors"]) or "none"
+    what = "real afpacket.Source on lo, %s, %s" % (
+        "UDP traffic every 2 ms" if o["traffic"] else "no traffic",
+        "closed before the receiver starts" if o["closed_at_ms"] == 0 else
+        "closed after %d ms with the context NOT cancelled" % o["closed_at_ms"] if o["closed_at_ms"] > 0 else
+        "context cancelled after %d ms" % o["cancel_at_ms"])
+    if not o["ended"]:
+        if o["closed_at_ms"] >= 0:
+            return ("closed-source-keeps-reading",
+                    "%s: the receiver is still reading %d ms after the close (a closed socket must end reading); "
+                    "%d read calls, read errors: %s; %d errors reported, e.g. %s" % (
+                        what, o["waited_ms"], o["reads"], errs, o["reported"], o["reported_examples"][:2]))
+        return ("hang", "%s: the error channel is not closed %d ms after the cancellation" % (what, o["waited_ms"]))
+    if o["reported"] > 0:
+        return ("source-error-reported", "%s: %d errors reported (%s) although the socket only timed out, delivered frames "
+                                         "or was closed; read errors: %s" % (what, o["reported"], o["reported_examples"][:2], errs))
+    if o["traffic"] and o["frames"] == 0:
+        return ("source-frames-lost", "%s: no frame reached the processor in %d read calls; read errors: %s" % (
+            what, o["reads"], errs))
     return None
 
 
@@ -195,7 +228,7 @@ def report(ctx, alpha, o, key, why):
     path = ctx.write_replay(tag, {
         "property": "C20", "what": why,
         "input": {"class": o["class"], "script": o["script"], "drained": o["drained"], "cancel_req": o["cancel_req"],
-                  "async_us": o["async_us"]},
+                  "async_us": o["async_us"], "closed_src_at": o.get("closed_src_at", 0)},
         "readable": describe(alpha, o),
         "observed": {k: o[k] for k in ("played", "cancel", "frames", "errs", "reads", "closed", "stuck")},
         "replay_cmd": "bin/check C20 --replay <this file>"})
@@ -222,6 +255,8 @@ def minimise(ctx, alpha, o, key, deadline):
                 elif i <= creq:
                     i += chunk
                     continue          # keep the step the cancellation is tied to
+            if cur.get("closed_src_at", 0):
+                break                 # already minimal: frame, the closed source's error, frame
             cand = {"class": cur["class"], "script": scr, "drained": cur["drained"], "cancel_req": creq,
                     "async_us": cur["async_us"]}
             got = run_one(ctx, cand)
@@ -285,17 +320,32 @@ def run(ctx):
     gen_ok = ctx.gen()
     model_ok = gen_ok and ctx.coq_model(["Spec/C20.vo"])
     proof_ok = gen_ok and ctx.coq_proofs("Properties/C20.v")
-    rows, alpha = [], None
+    rows, alpha, sources = [], None, []
     if ctx.harness_build("c20"):
         args = ["-out", "cases.jsonl", "-seed", ctx.seed, "-corpus", os.path.join(verif.ROOT, "corpus", "C20")]
         if quick:
-            args += ["-n", 1500, "-exh", 3, "-exhc", 2, "-pairs", 600, "-bursts", 16]
+            args += ["-n", 1500, "-exh", 3, "-exhc", 2, "-pairs", 600, "-bursts", 16, "-runs", 2, "-source"]
         else:
-            args += ["-n", 20000, "-exh", 5, "-exhc", 4, "-pairs", -1, "-bursts", 120]
+            args += ["-n", 20000, "-exh", 5, "-exhc", 4, "-pairs", -1, "-bursts", 120, "-runs", 6, "-source"]
         ok, _ = ctx.harness_run("c20", args, timeout=1500)
         if ok:
             allrows = ctx.read_jsonl(os.path.join(ctx.work, "cases.jsonl"))
-            alpha, rows = allrows[0], allrows[1:]
+            alpha = allrows[0]
+            rows = [o for o in allrows[1:] if o["kind"] == "case"]
+            sources = [o for o in allrows[1:] if o["kind"] == "source"]
+    for o in sources:
+        if o.get("skipped"):
+            ctx.skipped.append("real afpacket.Source: " + o["skipped"])
+            continue
+        ctx.count("real-source:" + o["scenario"], ("source", o["scenario"]), nontrivial=True,
+                  sample={"real_source": o["scenario"], "ended": o["ended"], "ended_ms": o["ended_ms"], "reads": o["reads"],
+                          "frames": o["frames"], "reported": o["reported"], "read_errors": o["read_errors"]})
+        r = source_spec(o)
+        if r and r[0] not in [f["key"] for f in ctx.findings]:
+            path = ctx.write_replay("source-%s" % o["scenario"], {
+                "property": "C20", "what": r[1], "input": {"source": True, "scenario": o["scenario"]}, "observed": o,
+                "replay_cmd": "bin/check C20 --replay <this file>"})
+            ctx.findings.append({"key": r[0], "what": r[1], "replay": path})
     for o in rows:
         key = (tuple(o["played"]), o["cancel"], o["drained"])
         ctx.count(o["class"], key, nontrivial=any(c >= 64 for c in o["script"]),
@@ -332,7 +382,7 @@ def run(ctx):
                                         "-pairs", -1, "-bursts", 40], timeout=1500)
         if ok:
             more = ctx.read_jsonl(os.path.join(ctx.work, "search.jsonl"))
-            judge(ctx, more[0], more[1:])
+            judge(ctx, more[0], [o for o in more[1:] if o["kind"] == "case"])
     return ctx.finish(rule=RULE)
 
 
@@ -343,6 +393,20 @@ def replay(ctx, path):
         return 1
     if not ctx.harness_build("c20"):
         return 1
+    if r["input"].get("source"):
+        ok, _ = ctx.harness_run("c20", ["-out", "one.jsonl", "-n", 0, "-exh", 0, "-exhc", 0, "-pairs", 0, "-bursts", 0,
+                                        "-runs", 0, "-source"], timeout=300)
+        if not ok:
+            return 1
+        bad = 0
+        for o in ctx.read_jsonl(os.path.join(ctx.work, "one.jsonl"))[1:]:
+            if o["kind"] != "source":
+                continue
+            why = None if o.get("skipped") else source_spec(o)
+            print("real afpacket.Source, %s: %s" % (o["scenario"], o.get("skipped") or (why[1] if why else
+                  "property holds (ended after %d ms, %d frames, nothing reported)" % (o["ended_ms"], o["frames"]))))
+            bad += 1 if why else 0
+        return 1 if bad else 0
     bad = 0
     for attempt in range(5 if r["input"].get("async_us", -1) >= 0 else 1):
         p = os.path.join(ctx.work, "one-in.json")
